@@ -152,3 +152,18 @@ Section Verify.
          | Some d => Some (if pk_verify pub d (sg_mpis s) (sg_halg s) then 0 else 1)
          end.
 End Verify.
+
+(* ---------- PGPKey.verify: which (signature, subject) pairs are examined at all ---------- *)
+(* ids = key id of the verifying key followed by the key ids of its subkeys; a signature is examined only when its
+   issuer is one of them (_filter_sigs, and the `elif signature.signer in ...` test for an explicit signature);
+   with nothing to examine the call raises PGPError("No signatures to verify") *)
+Definition examined (ids : list bytes) (issuer : bytes) : bool := existsb (eqb_bytes issuer) ids.
+Definition filter_sigs {A} (ids : list bytes) (sigs : list (bytes * A)) : list (bytes * A) :=
+  filter (fun s => examined ids (fst s)) sigs.
+Section VerifyExplicit.
+  Variable pk_verify : bytes -> bytes -> bytes -> Z -> bool.
+  (* None = raises "No signatures to verify"; Some r = the recorded issue value (or None inside when hashdata raised) *)
+  Definition verify_explicit (pub : bytes) (ids : list bytes) (issues : Z) (fails : bool) (issuer : bytes) (s : sigpkt) (subj : subject)
+    : option (option Z) :=
+    if examined ids issuer then Some (verify_pair pk_verify pub issues fails s subj) else None.
+End VerifyExplicit.
